@@ -116,6 +116,7 @@ async fn run_history(hist: &[J], rep: &mut Report, case_no: usize) {
         let mut model_rev: Vec<String> = h["rev"].as_array().map(|x| x.iter().map(|p| format!("{}.{}", p[0].as_str().unwrap(), p[1].as_str().unwrap())).collect()).unwrap_or_default();
         model_rev.sort();
         rep.count(&format!("op_{op}"), 1);
+        rep.case(&json!({"case": case_no, "step": n, "op": op}), true);
         if !real_rev.is_empty() {
             // a change the coordinator acknowledged / made is undone by its own re-synchronisation
             if real_rev == model_rev && after == h["post"] {
@@ -141,7 +142,6 @@ pub fn replay(rt: &tokio::runtime::Runtime, cases: &str, report: &str) {
     let mut rep = Report::default();
     for (i, c) in cases.iter().enumerate() {
         let hist = c["hist"].as_array().unwrap().clone();
-        rep.case(&json!({"ops": hist.iter().map(|h| h["a"]["op"].clone()).collect::<Vec<_>>()}), hist.iter().any(|h| h["a"]["op"] == "deploy"));
         let mut r2 = Report::default();
         match catch(|| rt.block_on(run_history(&hist, &mut r2, i))) {
             Ok(()) => rep.merge(r2),
